@@ -13,6 +13,7 @@ import Props.C15
 #print axioms SpyneModel.Props.C15.derive_returns_new
 #print axioms SpyneModel.Props.C15.primitive_customize_exact
 #print axioms SpyneModel.Props.C15.complex_customize_exact
+#print axioms SpyneModel.Props.C15.column_keywords_exact
 #print axioms SpyneModel.Props.C15.mandatory_primitive_exact
 #print axioms SpyneModel.Props.C15.keyword_loop_writes
 #print axioms SpyneModel.Props.C15.number_keeps_max_str_len
